@@ -169,7 +169,9 @@ fn judge_thread(p: &Puppet, e: &Expect, cb: &[u8], stack_start: u64, stack_len: 
 /// `optmode`: 0 default options; 1 size limit 0 (always exceeded) with the LAST thread blamed; 2 the same
 /// plus stack sanitising and skip-unreferenced; 3 size limit 0 with a thread in the middle blamed;
 /// 4 the target was stopped by job control (SIGTSTP) before the request; 5 stopped by SIGSTOP before the request;
-/// 6 the null-stack-pointer helper threads are created before the ordinary threads.
+/// 6 the null-stack-pointer helper threads are created before the ordinary threads;
+/// 7 the kernel's pid counter wraps around between the first and the remaining threads, so that younger
+///   threads have SMALLER thread ids than an older one (the task directory is listed in creation order).
 fn run_regfiles(files: &[RegFile], null_sp_threads: usize) -> (Value, Vec<(String, String)>, u64) {
     run_regfiles_opt(files, null_sp_threads, 0)
 }
@@ -196,6 +198,23 @@ fn run_regfiles_opt(files: &[RegFile], null_sp_threads: usize, optmode: u8) -> (
     }
     for (i, rf) in files.iter().enumerate() {
         exp.push(setup_thread(&mut p, i, rf));
+        if optmode == 7 && i == 0 {
+            // burn thread ids until the counter has wrapped below the first thread's id
+            let pid_max: i64 = std::fs::read_to_string("/proc/sys/kernel/pid_max").ok().and_then(|s| s.trim().parse().ok()).unwrap_or(i64::MAX);
+            let first = exp[0].tid as i64;
+            if pid_max <= 100_000 {
+                for _ in 0..40 {
+                    let last: i64 = p.cmd("burn_tids 2000").ok().and_then(|r| r.first().and_then(|x| x.parse().ok())).unwrap_or(0);
+                    if last != 0 && last < first {
+                        break;
+                    }
+                }
+            }
+        }
+    }
+    if optmode == 7 && !exp.iter().skip(1).any(|e| e.tid < exp[0].tid) && exp.len() > 1 {
+        // the counter did not wrap (huge pid_max or a very busy machine): the shape is not available here
+        return (json!({"optmode": 7, "unavailable": true}), Vec::new(), 0);
     }
     // every third thread gets a kernel name that is not valid UTF-8 (its name is unreadable; the
     // thread itself must still be listed)
@@ -593,6 +612,9 @@ pub fn run(ctx: &Ctx, rep: &mut Report) {
                 }
                 if nulls > 0 && n <= 21 {
                     items.push((files.clone(), nulls, 6));
+                }
+                if nulls == 0 && (n == 3 || n == 8) && mix != 1 {
+                    items.push((files.clone(), nulls, 7));
                 }
             }
         }
